@@ -21,6 +21,13 @@
 (*     (Requests queued behind a parked put are handed over by goroutines of their own and can overtake      *)
 (*     each other: with one request queued the order is determined.  A connect while the store lags reads     *)
 (*     a stale copy; that is outside the property's text and not generated.)                                   *)
+(*   which client id the schedule is about (Mode "ids"): `shape` indexes the harness' table of client ids with characters that    *)
+(*     are special to the store key / path handling ("plant/dev", "a/b/dev", "dev/", "/dev", "plant//dev", "../dev", ...); a        *)
+(*     second client, whose id is the last path segment of that id, is connected all along and must not be affected by the           *)
+(*     admin delete.                                                                                                                *)
+(*   Mode "mixed": plain reconnect / takeover chains of cleanSession=false connections over six filters subscribed with QoS 0 and     *)
+(*     1: sessions with several subscriptions of different QoS are resumed; after every step the harness probes every filter with a    *)
+(*     QoS0 and a QoS1 message.                                                                                                       *)
 (* `out` carries after every step what the contract says: the owner of the id and its               *)
 (* subscriptions (and the connections an admin delete must have disconnected).                        *)
 (* Before every connect the harness delivers all pending notifications (assumption of MqttSession).   *)
@@ -35,15 +42,20 @@ CONSTANTS MaxSteps,
                       \* no gates, no admin delete) - what a device that keeps its session does; "gap": the same chains, but
                       \* the device comes back while its previous connection's teardown is still parked in the Disconnect pipeline
 VARIABLES out, parked, will, gclean, k, wleft,
-          slow        \* "off" | "parked0" (a put is parked inside the store) | "parked1" (... and one store request waits behind it)
+          slow,       \* "off" | "parked0" (a put is parked inside the store) | "parked1" (... and one store request waits behind it)
+          shape       \* which client id (index into the harness' table; 0 = "dev")
 
-gvars == <<svars, out, parked, will, gclean, k, wleft, slow>>
+gvars == <<svars, out, parked, will, gclean, k, wleft, slow, shape>>
+IdShapes == 1..9
 
-Exp == [cur |-> kcur, subs |-> SetToSeq(ksubs), kicked |-> SetToSeq({c \in ConnSet : kst[c] = "kicked"})]
-Emit(rec) == out' = ToJson([op |-> rec, exp |-> [cur |-> kcur', subs |-> SetToSeq(ksubs'),
+(* subs: the filters; sq: the subscriptions (filter with QoS); q1: the filters subscribed with QoS1 *)
+Emit(rec) == out' = ToJson([op |-> rec, exp |-> [cur |-> kcur', subs |-> SetToSeq(Fs(ksubs')), sq |-> SetToSeq(ksubs'),
+                                                q1 |-> SetToSeq({x.f : x \in {y \in ksubs' : y.q = 1}}),
                                                 kicked |-> SetToSeq({c \in ConnSet : kst'[c] = "kicked"})]])
 
-GInit == /\ SInit /\ out = ToJson([op |-> [a |-> "init"]]) /\ parked = [c \in ConnSet |-> "none"]
+GInit == /\ SInit /\ parked = [c \in ConnSet |-> "none"]
+         /\ shape \in (IF Mode = "ids" THEN IdShapes ELSE {0})
+         /\ out = ToJson([op |-> [a |-> "init", shape |-> shape]])
          /\ will = [c \in ConnSet |-> FALSE] /\ gclean = [c \in ConnSet |-> FALSE] /\ k = 0 /\ wleft = 2 /\ slow = "off"
 
 Frozen == UNCHANGED <<ivars, ev>>
@@ -52,29 +64,31 @@ GConnect == \E c \in ConnSet, clean \in BOOLEAN, w \in BOOLEAN, sl \in BOOLEAN :
     /\ \A i \in 1..(Idx(c) - 1) : kst[Conns[i]] # "idle"
     /\ kdel => clean                                     \* after an admin delete only the clean case is determined
     /\ Mode \in {"resume", "gap", "burst"} => (~clean /\ ~w /\ kcur = "none")
+    /\ Mode = "mixed" => (~clean /\ ~w)                  \* (reconnect after the end of the previous connection, or takeover)
+    /\ Mode = "ids" => ~w
     /\ Mode = "slow" => (~w /\ kcur = "none")
     /\ slow = "off" /\ (sl => Mode = "slow")              \* the store has caught up when a client connects
     /\ KConnect(c, clean, ~clean /\ Resumable)
     /\ will' = [will EXCEPT ![c] = w] /\ gclean' = [gclean EXCEPT ![c] = clean]
     /\ slow' = IF sl THEN "parked0" ELSE "off"
     /\ Emit([a |-> "connect", c |-> c, clean |-> clean, will |-> w, slow |-> sl])
-    /\ UNCHANGED <<parked, wleft>>
+    /\ UNCHANGED <<parked, wleft, shape>>
 
-GSub == \E c \in ConnSet, f \in FiltersS, sl \in BOOLEAN :
+GSub == \E c \in ConnSet, f \in FiltersS, q \in QoSS, sl \in BOOLEAN :
     /\ slow # "parked1"
     /\ sl => (Mode = "slow" /\ slow = "off")
     /\ slow' = IF sl THEN "parked0" ELSE IF slow = "parked0" THEN "parked1" ELSE slow
-    /\ KSubscribe(c, f) /\ Emit([a |-> "sub", c |-> c, f |-> f, slow |-> sl]) /\ UNCHANGED <<parked, will, gclean, wleft>>
+    /\ KSubscribe(c, f, q) /\ Emit([a |-> "sub", c |-> c, f |-> f, q |-> q, slow |-> sl]) /\ UNCHANGED <<parked, will, gclean, wleft, shape>>
 
 (* two SUBSCRIBE packets, one filter each, written back to back *)
-GSub2 == \E c \in ConnSet, f \in FiltersS, g \in FiltersS :
+GSub2 == \E c \in ConnSet, f \in FiltersS, g \in FiltersS, q \in QoSS :
     /\ Mode = "burst" /\ f # g /\ slow = "off" /\ kcur = c
-    /\ ksubs' = ksubs \cup {f, g} /\ UNCHANGED <<kcur, kex, kclean, kst, kdel>>
-    /\ Emit([a |-> "sub2", c |-> c, f |-> f, g |-> g]) /\ UNCHANGED <<parked, will, gclean, wleft, slow>>
+    /\ ksubs' = Put(Put(ksubs, f, q), g, q) /\ UNCHANGED <<kcur, kex, kclean, kst, kdel>>
+    /\ Emit([a |-> "sub2", c |-> c, f |-> f, g |-> g, q |-> q]) /\ UNCHANGED <<parked, will, gclean, wleft, slow, shape>>
 
 (* the store catches up: the parked put returns and what queued up behind it is written *)
 GFlush == /\ slow # "off" /\ slow' = "off"
-          /\ UNCHANGED <<kvars, parked, will, gclean, wleft>> /\ Emit([a |-> "flush"])
+          /\ UNCHANGED <<kvars, parked, will, gclean, wleft, shape>> /\ Emit([a |-> "flush"])
 
 GDrop == \E c \in ConnSet, mode \in {"eof", "disc", "poke"}, gate \in {"none", "will", "del", "disc"} :
     /\ parked[c] = "none"
@@ -83,25 +97,26 @@ GDrop == \E c \in ConnSet, mode \in {"eof", "disc", "poke"}, gate \in {"none", "
     /\ gate = "del" => gclean[c]
     /\ gate = "disc" => kst[c] = "up"
     /\ gate # "none" => \A x \in ConnSet : parked[x] = "none"        \* one parked teardown at a time
-    /\ Mode \in {"resume", "slow", "burst"} => (gate = "none" /\ mode # "poke")
+    /\ Mode \in {"resume", "slow", "burst", "ids"} => (gate = "none" /\ mode # "poke")
+    /\ Mode = "mixed" => gate = "none"
     /\ slow # "off" => gate = "none"
     /\ Mode = "gap" => (gate \in {"none", "disc"} /\ mode # "poke")
     /\ KDrop(c)
     /\ parked' = [parked EXCEPT ![c] = gate]
     /\ Emit([a |-> "drop", c |-> c, mode |-> mode, gate |-> gate])
-    /\ UNCHANGED <<will, gclean, wleft, slow>>
+    /\ UNCHANGED <<will, gclean, wleft, slow, shape>>
 
 GResume == \E c \in ConnSet :
     /\ parked[c] # "none" /\ parked' = [parked EXCEPT ![c] = "none"]
-    /\ UNCHANGED <<kvars, will, gclean, wleft, slow>> /\ Emit([a |-> "resume", c |-> c])
+    /\ UNCHANGED <<kvars, will, gclean, wleft, slow, shape>> /\ Emit([a |-> "resume", c |-> c])
 
 GWatch == /\ wleft > 0 /\ wleft' = wleft - 1 /\ slow = "off" /\ UNCHANGED slow
           /\ \A c \in ConnSet : parked[c] # "del"      \* (a teardown parked inside delete has not produced its notification yet)
-          /\ UNCHANGED <<kvars, parked, will, gclean>> /\ Emit([a |-> "watch"])
+          /\ UNCHANGED <<kvars, parked, will, gclean, shape>> /\ Emit([a |-> "watch"])
 
-GAdmin == /\ Mode = "all" /\ UNCHANGED slow /\ kcur # "none" /\ kex /\ ~kdel /\ \A c \in ConnSet : parked[c] = "none"
+GAdmin == /\ Mode \in {"all", "ids"} /\ UNCHANGED <<slow, shape>> /\ kcur # "none" /\ kex /\ ~kdel /\ \A c \in ConnSet : parked[c] = "none"
           /\ KAdminDelete
-          /\ \E race \in {"none", "sub"}, f \in FiltersS : Emit([a |-> "admin", race |-> race, c |-> kcur, f |-> f])
+          /\ \E race \in {"none", "sub"}, f \in FiltersS, q \in QoSS : Emit([a |-> "admin", race |-> race, c |-> kcur, f |-> f, q |-> q])
           /\ UNCHANGED <<parked, will, gclean, wleft>>
 
 GNext == /\ k < MaxSteps /\ k' = k + 1 /\ Frozen
